@@ -18,7 +18,7 @@ func init() { register(c04{}) }
 
 func (c04) ID() string { return "C04" }
 func (c04) Rule() string {
-	return "systematic: every location of gen.Universe(L<=5|6, arity<=3) as the single labelled feature x every n in [-3L,3L] (ambiguous spans skipped when they would cross the new origin); seeded: L<=80, tables<=8 features, BasicSequence and circular seqio.GenBank hosts, n in [-3L,3L]. Oracle: residue k moves to (k+n) mod L; every feature present once with equal key/qualifiers; base atoms == before shifted by n mod L in order and strand, a contiguous part crossing the origin appears as two parts reading across it with open ends only where the original had them, a full-length part stays [0,L), sites compared mod L, coordinates within [0,L]; laws on residues, base atoms and markers: R(b)R(a)=R(a+b), R(kL)=id, R(-n)R(n)=id. non-trivial: n mod L != 0 and the table is not empty; distinct: canonical case text. CLI layer: gts rotate and gts split of the real binary (--no-cache) on generated linear and circular records, single and as streams, judged by the C15 models (first located position at index 0, features cyclically shifted; pieces concatenate to the input re-origined at a cut; a stream's output equals the outputs of its records alone)."
+	return "systematic: every location of gen.Universe(L<=5|6, arity<=3) as the single labelled feature x every n in [-3L,3L] (ambiguous spans skipped when they would cross the new origin); seeded: L<=80, tables<=8 features, BasicSequence and circular seqio.GenBank hosts, n in [-3L,3L]. Oracle: residue k moves to (k+n) mod L; every feature present once with equal key/qualifiers; base atoms == before shifted by n mod L in order and strand, a contiguous part crossing the origin appears as two parts reading across it with open ends only where the original had them, a full-length part stays [0,L), sites compared mod L, coordinates within [0,L]; laws on residues, base atoms and markers: R(b)R(a)=R(a+b), R(kL)=id, R(-n)R(n)=id. non-trivial: n mod L != 0 and the table is not empty; distinct: canonical case text. CLI layer: gts rotate and gts split of the real binary (--no-cache) on generated linear and circular records, single and as streams, judged by the C15 models (first located position at index 0, features cyclically shifted; pieces concatenate to the input re-origined at a cut; a stream's output equals the outputs of its records alone). After every Rotate the argument still holds its residues and the sentinel bytes in the spare capacity behind them."
 }
 func (c04) RequiredBuckets(tier string) []string {
 	out := []string{"crosses-origin", "full-length", "n:negative", "n:beyond-L", "n:multiple-of-L", "law:compose", "law:inverse", "host:genbank", "host:basic"}
@@ -103,6 +103,10 @@ func (m c04) check(c *fw.Ctx, kind string, tab []gts.Feature, hostB []byte, n in
 		return
 	}
 	c.Hold(enc, func() string { return heldSeq(res) })
+	if how := hostMemoryTouched(host, hostB); how != "" {
+		c.Violate("Rotate:writes-into-the-memory-of-its-argument", enc, "the argument's residues and the bytes behind them (its buffer was appended to: spare capacity) untouched", how)
+		return
+	}
 	want := make([]byte, L)
 	for k := 0; k < L; k++ {
 		want[(k+nn)%L] = hostB[k]
